@@ -44,7 +44,7 @@ func (p prefixReader) ReadHashes(ix []int64) ([]tlog.Hash, error) {
 	return p.lg.ReadHashes(ix)
 }
 
-func failingAppends(r *fw.Run) {
+func FailingAppends(r *fw.Run) {
 	l := fw.NewLocal()
 	defer r.Merge(l)
 	N := r.Pick(40, 100)
@@ -72,6 +72,13 @@ func failingAppends(r *fw.Run) {
 					return hs[:len(hs)-1], nil
 				}
 				return nil, fmt.Errorf("injected read error")
+			case 3:
+				// an error together with a slice of the right length (a reader that fills what it can)
+				out := make([]tlog.Hash, len(hs))
+				for i := range out {
+					out[i][0] = 0xee
+				}
+				return out, fmt.Errorf("injected read error with a full-length answer")
 			default:
 				return append(hs, hs...), nil
 			}
@@ -93,7 +100,7 @@ func failingAppends(r *fw.Run) {
 	// a reader that answers with one hash too few or with too many: every prover must report an error, not
 	// panic and not return a result
 	for n := int64(1); n <= int64(N); n++ {
-		for mode := 1; mode < 3; mode++ {
+		for mode := 1; mode <= 3; mode++ {
 			for _, c := range []struct {
 				name string
 				f    func(rd tlog.HashReader) error
@@ -127,7 +134,7 @@ func failingAppends(r *fw.Run) {
 		}
 	}
 	for n := int64(0); n < int64(N); n++ {
-		for mode := 0; mode < 3; mode++ {
+		for mode := 0; mode <= 3; mode++ {
 			for _, m := range []int64{n, n + 1, n + 2, n + 3} {
 				l.States++
 				hist := fmt.Sprintf("after a failed call (mode %d) for record %d of log A", mode, n)
@@ -752,7 +759,7 @@ func Run(r *fw.Run) {
 	// is first made with a reader that fails (an error, or one hash too few), then another log is appended
 	// to, then the call is repeated with a good reader. Every successful call must return exactly the
 	// hashes a clean build of that log has at those positions.
-	failingAppends(r)
+	FailingAppends(r)
 
 	Overlap(r)
 
@@ -978,7 +985,7 @@ func Replay(r *fw.Run, raw json.RawMessage) {
 	case "huge":
 		HugeLogs(r)
 	case "failing":
-		failingAppends(r)
+		FailingAppends(r)
 	case "recordhash":
 		r.Note("record-hash cases are re-run by the full check")
 	case "coord":
